@@ -696,6 +696,95 @@ theorem c06_fair_run_answers (n : Nat) (e : PEntry) (o : Owner) (hact : (R.st n)
 
 end FairRun
 
+/-! ### exactly once -/
+
+theorem srun_srunO (c : Cfg) (v : SVariant) (acts : List SAct) (s s' : SState) (h : srun c v s acts = some s') :
+    ∃ outs, srunO c v s acts = some (s', outs) := by
+  induction acts generalizing s with
+  | nil => simp [srun] at h; subst h; exact ⟨[], rfl⟩
+  | cons a as ih =>
+    simp only [srun] at h
+    cases h1 : sstep c v s a with
+    | none => rw [h1] at h; simp at h
+    | some p =>
+      obtain ⟨s1, o1⟩ := p
+      rw [h1] at h; simp only at h
+      obtain ⟨os, hos⟩ := ih s1 h
+      exact ⟨o1 ++ os, by simp [srunO, h1, hos]⟩
+
+namespace FairRun
+
+variable {c : Cfg} (R : FairRun c)
+
+/-- the actions and the outputs of the first `k` steps -/
+def pacts (k : Nat) : List SAct := (List.range k).map R.act
+
+def pouts : Nat → List Out
+  | 0 => []
+  | k + 1 => pouts k ++ R.out k
+
+theorem prefix_run (k : Nat) : srunO c .current (R.st 0) (R.pacts k) = some (R.st k, R.pouts k) := by
+  induction k with
+  | zero => rfl
+  | succ k ih =>
+    have h1 : srunO c .current (R.st k) [R.act k] = some (R.st (k + 1), R.out k) := by
+      simp [srunO, R.step k]
+    have := srunO_append c .current (R.pacts k) [R.act k] _ _ _ _ _ ih h1
+    simpa [pacts, List.range_succ, pouts] using this
+
+theorem pouts_mem (j k : Nat) (hjk : j < k) (o : Out) (ho : o ∈ R.out j) : o ∈ R.pouts k := by
+  induction k with
+  | zero => omega
+  | succ k ih =>
+    simp only [pouts, List.mem_append]
+    by_cases h : j = k
+    · subst h; exact Or.inr ho
+    · exact Or.inl (ih (by omega))
+
+theorem pacts_faults (k : Nat) : WriteFaultsOnly (R.pacts k) := by
+  intro a ha
+  simp only [pacts, List.mem_map] at ha
+  obtain ⟨j, _, rfl⟩ := ha
+  exact R.faults j
+
+theorem mem_respIds {outs : List Out} {i : Inv} {r : Resp} (h : Out.resp i r ∈ outs) : i.id ∈ respIds outs := by
+  unfold respIds
+  exact List.mem_filterMap.mpr ⟨_, h, rfl⟩
+
+/-- no call is answered at two different steps of the run -/
+theorem answered_once (m m' : Nat) (hlt : m < m') (i i' : Inv) (r r' : Resp) (hid : i'.id = i.id)
+    (h1 : Out.resp i r ∈ R.out m) (h2 : Out.resp i' r' ∈ R.out m') : False := by
+  obtain ⟨acts0, hf0, hr0⟩ := R.reach0
+  obtain ⟨outs0, hro0⟩ := srun_srunO c .current acts0 _ _ hr0
+  have hrun := srunO_append c .current acts0 (R.pacts (m' + 1)) _ _ _ _ _ hro0 (R.prefix_run (m' + 1))
+  have hf : WriteFaultsOnly (acts0 ++ R.pacts (m' + 1)) := by
+    intro a ha; simp only [List.mem_append] at ha
+    rcases ha with h | h
+    · exact hf0 a h
+    · exact R.pacts_faults _ a h
+  have hnd := (c06_at_most_once_run c _ _ _ hf hrun).1
+  simp only [pouts, ← List.append_assoc, respIds_append] at hnd
+  rw [List.nodup_append] at hnd
+  have hx1 : i.id ∈ respIds outs0 ++ respIds (R.pouts m') :=
+    List.mem_append_right _ (mem_respIds (R.pouts_mem m m' hlt _ h1))
+  have hx2 : i'.id ∈ respIds (R.out m') := mem_respIds h2
+  exact hnd.2.2 _ hx1 _ hx2 hid.symm
+
+/-- **C06, exactly once.** In a fair run every HTLC that is held at some point is answered at exactly
+    one later step, and at no other step of the whole run. -/
+theorem c06_fair_run_exactly_once (n : Nat) (e : PEntry) (o : Owner) (hact : (R.st n).active = some (e, o))
+    (i : Inv) (hi : i ∈ e.listeners) :
+    ∃ m r, n ≤ m ∧ Out.resp i r ∈ R.out m ∧ ∀ m' i' r', i'.id = i.id → Out.resp i' r' ∈ R.out m' → m' = m := by
+  obtain ⟨m, r, hm, hr⟩ := R.c06_fair_run_answers n e o hact i hi
+  refine ⟨m, r, hm, hr, ?_⟩
+  intro m' i' r' hid hr'
+  refine Classical.byContradiction (fun hne => ?_)
+  rcases Nat.lt_or_gt_of_ne hne with h | h
+  · exact R.answered_once m' m h i' i r' r hid.symm hr' hr
+  · exact R.answered_once m m' h i i' r r' hid hr hr'
+
+end FairRun
+
 /-! ### non-vacuity: a concrete fair run
 
 One HTLC of an incomplete set arrives, the stored state is fetched, a minute passes, the timer
